@@ -136,9 +136,19 @@ def oracle(program, schedules):
                                  'the same edits succeed without the inserted calls but: step %d: %s' % (p.step, p.msg)))
             r.close()
             continue
-        if r.refused and [x for x in r.refused if not x[1].startswith('query')] != [x for x in ref.refused]:
+        def serials(run_):
+            # refused edits by the serial of the op (the inserted calls shift the indexes) and message
+            return sorted((run_.ops[i].get('n'), m_) for i, m_ in run_.refused if not m_.startswith('query'))
+        if serials(r) != serials(ref):
             # a different set of edits was accepted: not comparable (over-refusal differences are counted)
             ref.stats['refusal_sets_differ'] = ref.stats.get('refusal_sets_differ', 0) + 1
+            a_, b_ = serials(r), serials(ref)
+            only = [m_ for n_, m_ in a_ if (n_, m_) not in b_] + [m_ for n_, m_ in b_ if (n_, m_) not in a_]
+            if only and not all(m_.startswith('write_fp:') for m_ in only):
+                # an edit that is accepted or refused depending on when metadata was recomputed
+                import re as _re
+                failures.append(('C06/refused-depending-on-schedule/%s/%s' % (_re.sub(r'[^A-Za-z_]+', '-', only[0].split(':')[0])[:30], 'always-consistent' if mode else 'lazy'), 'schedule-dependent',
+                                 'the same edits, with recomputations inserted, are refused differently: %s' % '; '.join(only[:3])[:400]))
             r.close()
             continue
         img = r.write()
